@@ -60,6 +60,13 @@ class cycle_guard(object):
     epoch = 0
 
     @staticmethod
+    def request():
+        # type: () -> None
+        """a new request begins (lint / assist / location / usages are given a
+        text): nothing provisional is carried over from the one before"""
+        cycle_guard.epoch += 1
+
+    @staticmethod
     def cached(store, name, compute):
         # type: (dict[str, t.Any], str, t.Callable[[], t.Any]) -> t.Any
         try:
